@@ -3,6 +3,14 @@ import json, os, sys
 HERE = os.path.dirname(os.path.dirname(os.path.abspath(__file__)))
 
 CHECKS = {
+    "C12": ("exploration", "3 C12",
+            "A finite grammar of field types (26 atoms incl. strict/plain primitives, phantom and constrained types, Duration, PintUnit, PintQuantity, SemVerTuple, Literal, Enum, date, AnyHttpUrl, nested schemas with and without JSON-LD constants, LDIdRef; Optional/List/Set/Union to depth 2, a core to depth 3) generates one schema class per type x constant variant; every class is instantiated with the complete boundary corpus of its type, and all installed schemas with every <=2-field deviation from a minimal instance. Oracle: parse_raw(bytes/json/yaml) and parse_obj(json_dict) give an equal instance, second round trip identical, constants always dumped with their value and ignored on input.",
+            "Exhaustive for the stated grammar and corpora; inputs the constructor rejects are not judged (property speaks about valid instances); NaN compared for parsability only.",
+            "exhaustive enumeration of generated schema classes x value corpora (bounded grammar)"),
+    "C13": ("exploration", "3 C13",
+            "Part A: every instance of the C12 enumeration (generated 3-level chains and installed schemas) must be parsable by every ancestor class and registered parent plugin. Part B: for every ordered pair of field types of the grammar (190 types quick, 700 thorough; plus multi-field and via-intermediate variants, Extra policies and new fields below forbidding parents) a parent/child class pair is generated and the library's own plugin-time check is run; whenever it accepts the override, every corpus value the child accepts must be accepted by the parent.",
+            "Exhaustive for the stated grammar and corpora; date/time types excluded as the property says.",
+            "exhaustive enumeration of generated class pairs (programs) x value corpora"),
     "C17": ("exploration", "3 C17",
             "Every payload of a boundary corpus (all 256 single bytes incl. the IH5 deletion marker, 2-byte strings over boundary bytes, lengths around 64/128/1024/4096/65536 in three fillings, NUL- and marker-variants) is embedded with pack_file from a real file through each driver (h5py, IH5, IH5MF), followed by every follow-up sequence (bounded length) of patch boundary, copy, move, merge, reopen; after every step every embedded node must read back the exact bytes and carry core.file metadata with exact size and SHA-256; the marker value must be refused on IH5 without leaving anything behind.",
             "Finite payload corpus; MIME detection not judged; follow-up length bounded (1 for all payloads, 2 for 12 representatives in quick; +1 in thorough).",
